@@ -6,7 +6,7 @@
 use serde_json::{json, Value};
 use std::collections::HashMap;
 use std::sync::atomic::{AtomicU64, Ordering};
-use std::sync::{Arc, Mutex};
+use std::sync::{Arc, Condvar, Mutex};
 use tracing::Span;
 use tracing_core::{collect::Interest, dispatch, span, Collect, Dispatch, Event, LevelFilter, Metadata};
 use tracing_subscriber::registry::{LookupSpan, Registry};
@@ -142,9 +142,44 @@ impl<C: Collect> Subscribe<C> for Mixed {
     }
 }
 
+/// a `modify` on a reload handle whose closure parks (holding the handle's write lock) until released
+struct HoldGate {
+    st: Mutex<u8>, // 0 idle, 1 parked, 2 released
+    cv: Condvar,
+}
+impl HoldGate {
+    fn new() -> Self {
+        HoldGate { st: Mutex::new(0), cv: Condvar::new() }
+    }
+    fn park(&self) {
+        let mut g = self.st.lock().unwrap();
+        *g = 1;
+        self.cv.notify_all();
+        while *g != 2 {
+            g = self.cv.wait(g).unwrap();
+        }
+    }
+    fn wait_parked(&self) {
+        let mut g = self.st.lock().unwrap();
+        while *g == 0 {
+            g = self.cv.wait(g).unwrap();
+        }
+    }
+    fn release(&self) {
+        *self.st.lock().unwrap() = 2;
+        self.cv.notify_all();
+    }
+}
+type HoldFn = Arc<dyn Fn(&HoldGate) + Send + Sync>;
+type SwapFn = Arc<dyn Fn(bool) + Send + Sync>;
+
+#[derive(Clone)]
 struct Env {
     log: Log,
     log_reg: bool,
+    /// per reload element with an `id`: a way to hold its write lock, and (swap elements) to reload it to Some(..) / None
+    holds: Arc<Mutex<HashMap<u64, HoldFn>>>,
+    swaps: Arc<Mutex<HashMap<u64, SwapFn>>>,
 }
 
 fn gfilter<C>(f: &Value) -> B<C>
@@ -230,6 +265,27 @@ where
         "box" => Box::new(mk::<C>(&e["inner"], env)),
         "reload" => {
             let (l, h) = reload::Subscriber::new(mk::<C>(&e["inner"], env));
+            if let Some(id) = e["id"].as_u64() {
+                let h2 = h.clone();
+                env.holds.lock().unwrap().insert(id, Arc::new(move |g: &HoldGate| {
+                    let _ = h2.modify(|_| g.park());
+                }));
+            }
+            std::mem::forget(h);
+            Box::new(l)
+        }
+        // a reload handle over an optional layer, switched between Some(layer) and None while the stack is in use
+        "swap" => {
+            let id = e["id"].as_u64().unwrap();
+            let init: Option<B<C>> = if e["on"].as_bool().unwrap_or(true) { Some(mk::<C>(&e["inner"], env)) } else { None };
+            let (l, h) = reload::Subscriber::new(init);
+            let (h2, h3, inner, env2) = (h.clone(), h.clone(), e["inner"].clone(), env.clone());
+            env.holds.lock().unwrap().insert(id, Arc::new(move |g: &HoldGate| {
+                let _ = h2.modify(|_| g.park());
+            }));
+            env.swaps.lock().unwrap().insert(id, Arc::new(move |on: bool| {
+                h3.reload(if on { Some(mk::<C>(&inner, &env2)) } else { None }).expect("reload");
+            }));
             std::mem::forget(h);
             Box::new(l)
         }
@@ -344,7 +400,7 @@ fn child() {
     vh_common::quiet_panics();
     let beh = runner::child_input();
     let log = new_log();
-    let env = Env { log: log.clone(), log_reg: beh["log_reg"].as_bool().unwrap_or(false) };
+    let env = Env { log: log.clone(), log_reg: beh["log_reg"].as_bool().unwrap_or(false), holds: Default::default(), swaps: Default::default() };
     let elems: Vec<Value> = beh["stack"].as_array().unwrap().clone();
     let wrap = beh["cwrap"].as_str().unwrap_or("").to_string();
     // the metadata universe for the stack summary: collected from the real callsites by a throw-away collector
@@ -384,6 +440,14 @@ fn child() {
             "rebuild" => {
                 tracing_core::callsite::rebuild_interest_cache();
                 Ok(json!(0))
+            }
+            "swap" => {
+                let f = env.swaps.lock().unwrap().get(&step["id"].as_u64().unwrap()).cloned().expect("swap: no such element");
+                let on = step["on"].as_bool().unwrap();
+                vh_common::catch(move || {
+                    f(on);
+                    json!(0)
+                })
             }
             "event" => ws.run(t, move |c| {
                 if c.default.is_none() {
@@ -459,14 +523,32 @@ fn child() {
                 a.follows_from(&b);
                 json!(0)
             }),
-            "drop" => ws.run(t, move |c| {
-                if c.default.is_none() {
-                    c.default = Some(dispatch::set_default(&dd));
+            "drop" => {
+                let job = move |c: &mut Ctx| {
+                    if c.default.is_none() {
+                        c.default = Some(dispatch::set_default(&dd));
+                    }
+                    let h = sp2.lock().unwrap().remove(&s);
+                    drop(h);
+                    json!(0)
+                };
+                match step["during_modify"].as_u64().and_then(|id| env.holds.lock().unwrap().get(&id).cloned()) {
+                    // the span closes while another thread is inside Handle::modify of a reload element (write lock held):
+                    // the close must wait for the lock and still reach the layer behind the handle
+                    Some(hold) => {
+                        let gate = Arc::new(HoldGate::new());
+                        let g2 = gate.clone();
+                        let th = std::thread::spawn(move || hold(&g2));
+                        gate.wait_parked();
+                        let rx = ws.spawn(t, job);
+                        std::thread::sleep(std::time::Duration::from_millis(3));
+                        gate.release();
+                        let _ = th.join();
+                        rx.recv().unwrap_or_else(|_| Err("worker died".into()))
+                    }
+                    None => ws.run(t, job),
                 }
-                let h = sp2.lock().unwrap().remove(&s);
-                drop(h);
-                json!(0)
-            }),
+            }
             o => panic!("op {o}"),
         };
         // did the composed collector run an `enabled` pass during this operation?
